@@ -4,6 +4,14 @@ From DuneV Require Import C15_Model C15_Spec.
 Import ListNotations.
 Local Open Scope N_scope.
 
+Lemma c15_nodup_app {A} (l1 l2 : list A) : NoDup l1 -> NoDup l2 -> (forall x, In x l1 -> ~ In x l2) -> NoDup (l1 ++ l2).
+Proof.
+  induction l1 as [|h t IH]; intros H1 H2 H; cbn; [assumption|].
+  inversion H1; subst. constructor.
+  - rewrite in_app_iff. intros [Hh|Hh]; [contradiction|]. apply (H h); [left; reflexivity|assumption].
+  - apply IH; try assumption. intros x Hx. apply H. right; assumption.
+Qed.
+
 (* ------------------------------------------------------------------ roundup *)
 Lemma c15_roundup_spec x al : al <> 0 ->
   (al | c15_roundup x al) /\ x <= c15_roundup x al /\ c15_roundup x al < x + al.
@@ -14,7 +22,8 @@ Proof.
   - apply N.eqb_neq in E.
     pose proof (N.div_mod x al Hal) as Hdm.
     pose proof (N.mod_upper_bound x al Hal) as Hub.
-    split; [exists (x / al + 1); reflexivity|]. nia.
+    split; [exists (x / al + 1); reflexivity|].
+    set (q := x / al) in *. set (r := x mod al) in *. clearbody q r. subst x. split; nia.
 Qed.
 
 Lemma c15_roundup_mono x y al : al <> 0 -> x <= y -> c15_roundup x al <= c15_roundup y al.
@@ -22,7 +31,9 @@ Proof.
   intros Hal Hxy.
   destruct (c15_roundup_spec x al Hal) as ([a Ha] & Hx1 & Hx2).
   destruct (c15_roundup_spec y al Hal) as ([b Hb] & Hy1 & Hy2).
-  rewrite Ha, Hb in *. nia.
+  rewrite Ha, Hb in *.
+  destruct (N.le_gt_cases a b) as [Hab|Hab]; [apply N.mul_le_mono_r; assumption|].
+  assert (H1 : (b + 1) * al <= a * al) by (apply N.mul_le_mono_r; lia). lia.
 Qed.
 
 (* ------------------------------------------------------------------ geometry *)
@@ -104,10 +115,12 @@ Proof.
   assert (Hal : g_alignment g <> 0).
   { subst g; cbn. intro H. apply N.lcm_eq_0 in H. unfold c15_alignofRef in H. lia. }
   assert (Hle : g_alignment g <= 8 * aT).
-  { subst g; cbn. unfold N.lcm, c15_alignofRef.
+  { subst g; unfold c15_geom_raw; cbn [g_alignment]. unfold N.lcm, c15_alignofRef.
     assert (Hg : N.gcd aT 8 <> 0) by (intro Hg; apply N.gcd_eq_0 in Hg; lia).
     pose proof (N.div_le_upper_bound 8 (N.gcd aT 8) 8 Hg) as Hd.
-    assert (8 / N.gcd aT 8 <= 8) by (apply Hd; destruct (N.gcd aT 8); [lia|nia]). nia. }
+    assert (Hq : 8 / N.gcd aT 8 <= 8).
+    { apply Hd. assert (1 <= N.gcd aT 8) by lia. set (gg := N.gcd aT 8) in *. clearbody gg. nia. }
+    rewrite (N.mul_comm 8). apply N.mul_le_mono_l. exact Hq. }
   assert (EU : g_unionSize g = if sT <? c15_sizeofRef then c15_sizeofRef else sT) by reflexivity.
   assert (ES : g_size g = if (sT <=? s) && (c15_sizeofRef <=? s) then s else g_unionSize g) by reflexivity.
   assert (HU : g_unionSize g <= sT + 8) by (rewrite EU; unfold c15_sizeofRef; destruct (N.ltb_spec sT 8); lia).
@@ -186,6 +199,9 @@ Proof.
   - destruct (IH i H) as (l1 & l2 & E1 & E2 & E3). exists (h :: l1), l2. cbn. rewrite E2. subst. repeat split.
 Qed.
 
+Lemma c15_rev_seq_S n : rev (seq 0 (S n)) = n :: rev (seq 0 n).
+Proof. rewrite seq_S, rev_app_distr. reflexivity. Qed.
+
 Lemma c15_rev_seq_in n c : In c (rev (seq 0 n)) <-> (c < n)%nat.
 Proof. rewrite <- in_rev, in_seq. lia. Qed.
 
@@ -207,7 +223,7 @@ Proof.
   destruct free as [|b rest].
   - (* grow *)
     rewrite (c15_grow_spec g (C15Pool chunks []) Ha Hel); cbn.
-    set (c := length chunks).
+    remember (length chunks) as c eqn:Ec.
     assert (Hsl : c15_chunk_slots g c = (c, 0) :: map (fun i => (c, N.of_nat i * g_alignedSize g)) (seq 1 (N.to_nat (g_elements g) - 1))).
     { unfold c15_chunk_slots. destruct (N.to_nat (g_elements g)) as [|e] eqn:E; [lia|].
       cbn [seq map]. replace (S e - 1)%nat with e by lia. reflexivity. }
@@ -218,12 +234,13 @@ Proof.
     assert (Hfresh : forall x, In x ((c, 0) :: rest) -> ~ In x live).
     { intros x Hx Hl. apply Hin2 in Hx. apply Hin in Hl. destruct Hl as [Hl _]. destruct Hx as [Hx _]. lia. }
     split; [reflexivity|]. split; [|split; [|split; [|split]]].
-    + unfold c15_pool_inv; cbn. split; [|split].
-      * rewrite seq_S, rev_app_distr. cbn. f_equal. exact Hch.
+    + unfold c15_pool_inv; cbn [cl_pool p_chunks p_free cl_live]. split; [|split].
+      * cbn [length]. rewrite c15_rev_seq_S. rewrite <- Ec. f_equal. exact Hch.
       * apply (Permutation_NoDup (l := ((c, 0) :: rest) ++ live)).
         { cbn. rewrite app_assoc. apply Permutation_cons_append. }
-        apply NoDup_app_iff_local; assumption.
+        apply c15_nodup_app; try assumption.
       * intros x. rewrite app_assoc, in_app_iff. cbn [In]. rewrite in_app_iff.
+        unfold c15_slot_valid in *. cbn [length]. rewrite <- Ec.
         split.
         -- intros [[H|H]|[H|[]]].
            ++ assert (Hx : In x ((c, 0) :: rest)) by (right; exact H). apply Hin2 in Hx.
@@ -236,7 +253,7 @@ Proof.
            ++ left; right. apply Hin. split; [lia|exact H2].
     + apply Hfresh. left; reflexivity.
     + split; [cbn; lia|]. exists 0. split; [lia|reflexivity].
-    + cbn. subst c. lia.
+    + cbn. lia.
     + cbn. lia.
   - (* pop *)
     exists b, (C15Pool chunks rest). cbn.
@@ -254,4 +271,168 @@ Proof.
     + exact Hb.
     + destruct Hb as [Hb _]. lia.
     + destruct Hb as [Hb _]. lia.
+Qed.
+
+Lemma c15_as_pos g sT aT : c15_geom_good sT aT g -> g_alignedSize g <> 0 /\ sT <= g_alignedSize g.
+Proof.
+  intros GG. pose proof (gg_union_as _ _ _ GG). pose proof (gg_union_R _ _ _ GG). pose proof (gg_union_T _ _ _ GG).
+  unfold c15_sizeofRef in *. lia.
+Qed.
+
+Lemma c15_valid_bound g sT aT nch b : c15_geom_good sT aT g -> c15_slot_valid g nch b ->
+  snd b + g_alignedSize g <= g_chunkSize g.
+Proof.
+  intros GG (_ & k & Hk & Hs). pose proof (gg_fit _ _ _ GG). rewrite Hs.
+  assert ((k + 1) * g_alignedSize g <= g_elements g * g_alignedSize g) by (apply N.mul_le_mono_r; lia). lia.
+Qed.
+
+Lemma c15_free_step g sT aT st i b : c15_geom_good sT aT g -> c15_pool_inv g st -> nth_error (cl_live st) i = Some b ->
+  exists p', c15_pool_free g (cl_pool st) b = C15Ok p' /\
+    c15_pool_inv g (C15Client p' (c15_remove_nth i (cl_live st))) /\
+    length (p_chunks p') = length (p_chunks (cl_pool st)).
+Proof.
+  intros GG (Hch & Hnd & Hin) Hnth.
+  destruct (c15_as_pos _ _ _ GG) as [Ha HsTa].
+  destruct st as [[chunks free] live]; cbn in *.
+  destruct (c15_remove_nth_split _ _ _ Hnth) as (l1 & l2 & El & Er & _).
+  assert (Hb : c15_slot_valid g (length chunks) b).
+  { apply Hin. apply in_or_app. right. rewrite El. apply in_or_app. right. left. reflexivity. }
+  unfold c15_pool_free; cbn.
+  assert (E1 : existsb (Nat.eqb (fst b)) chunks = true).
+  { apply existsb_exists. exists (fst b). split; [|apply Nat.eqb_refl].
+    rewrite Hch. apply c15_rev_seq_in. destruct Hb; assumption. }
+  assert (E2 : snd b <? g_chunkSize g = true).
+  { apply N.ltb_lt. pose proof (c15_valid_bound _ _ _ _ _ GG Hb). lia. }
+  rewrite E1, E2. cbn. eexists. split; [reflexivity|]. split; [|reflexivity].
+  unfold c15_pool_inv; cbn. split; [exact Hch|].
+  rewrite Er. rewrite El in *.
+  assert (HP : Permutation (free ++ l1 ++ b :: l2) (b :: free ++ l1 ++ l2)).
+  { rewrite !app_assoc. symmetry. apply Permutation_middle. }
+  split.
+  - eapply Permutation_NoDup; eassumption.
+  - intros x. rewrite <- Hin. split; intro H.
+    + exact (Permutation_in x (Permutation_sym HP) H).
+    + exact (Permutation_in x HP H).
+Qed.
+
+Lemma c15_slots_disjoint g sT aT n1 n2 b1 b2 : c15_geom_good sT aT g ->
+  c15_slot_valid g n1 b1 -> c15_slot_valid g n2 b2 -> b1 <> b2 -> c15_blk_disjoint sT b1 b2 = true.
+Proof.
+  intros GG (_ & k1 & Hk1 & Hs1) (_ & k2 & Hk2 & Hs2) Hne.
+  destruct (c15_as_pos _ _ _ GG) as [Ha HsTa].
+  unfold c15_blk_disjoint. destruct b1 as [c1 o1], b2 as [c2 o2]; cbn in *.
+  destruct (Nat.eqb_spec c1 c2) as [Ec|Ec]; cbn; [|reflexivity].
+  subst. assert (Hk : k1 <> k2) by (intro; subst; apply Hne; reflexivity).
+  apply orb_true_iff. rewrite !N.leb_le.
+  destruct (N.lt_ge_cases k1 k2) as [Hlt|Hge].
+  - left. assert ((k1 + 1) * g_alignedSize g <= k2 * g_alignedSize g) by (apply N.mul_le_mono_r; lia). lia.
+  - right. assert ((k2 + 1) * g_alignedSize g <= k1 * g_alignedSize g) by (apply N.mul_le_mono_r; lia). lia.
+Qed.
+
+Lemma c15_valid_blk_ok g sT aT nch nch' live b : c15_geom_good sT aT g ->
+  (forall x, In x live -> c15_slot_valid g nch x) -> c15_slot_valid g nch' b -> ~ In b live -> (fst b <= nch)%nat ->
+  c15_blk_ok sT aT (g_chunkSize g) nch live b = true.
+Proof.
+  intros GG Hlive Hb Hnin Hle.
+  destruct (c15_as_pos _ _ _ GG) as [Ha HsTa].
+  unfold c15_blk_ok. repeat (apply andb_true_iff; split).
+  - apply Nat.leb_le. exact Hle.
+  - apply N.leb_le. pose proof (c15_valid_bound _ _ _ _ _ GG Hb). lia.
+  - apply N.eqb_eq. destruct Hb as (_ & k & _ & Hs). rewrite Hs.
+    assert (HaT : aT <> 0).
+    { destruct (gg_aT_al _ _ _ GG) as [q Hq]. pose proof (gg_al_pos _ _ _ GG). intro; subst. lia. }
+    apply N.mod_divide; [exact HaT|].
+    apply N.divide_mul_r. eapply N.divide_trans; [apply (gg_aT_al _ _ _ GG)|apply (gg_as_al _ _ _ GG)].
+  - apply forallb_forall. intros x Hx. eapply c15_slots_disjoint; try eassumption.
+    + apply Hlive; assumption.
+    + intro; subst; contradiction.
+Qed.
+
+Definition c15_nch (st : c15_client) : nat := length (p_chunks (cl_pool st)).
+
+Lemma c15_run_ok g sT aT : c15_geom_good sT aT g -> forall ops st,
+  c15_pool_inv g st -> c15_ops_ok (length (cl_live st)) ops = true ->
+  c15_spec_trace sT aT (g_chunkSize g) (c15_nch st) (cl_live st) ops (fst (c15_run g st ops)) = true /\
+  c15_pool_inv g (snd (c15_run g st ops)) /\
+  c15_nch (snd (c15_run g st ops)) = Nat.max (c15_nch st) (c15_spec_nchunks (fst (c15_run g st ops))).
+Proof.
+  intros GG. induction ops as [|op ops IH]; intros st Hinv Hok.
+  - cbn [c15_run fst snd c15_spec_trace c15_spec_nchunks]. rewrite Nat.max_0_r. split; [reflexivity|split; [assumption|reflexivity]].
+  - destruct op as [n|i]; cbn [c15_ops_ok] in Hok.
+    + (* allocate(n) *)
+      cbn [c15_run c15_step]. unfold c15_pa_allocate.
+      destruct (n =? 1) eqn:En.
+      * destruct (c15_alloc_step g sT aT st GG Hinv) as (b & p' & Ea & Hinv' & Hnin & Hval & Hlen & Hle).
+        rewrite Ea.
+        specialize (IH (C15Client p' (cl_live st ++ [b])) Hinv').
+        cbn [cl_live] in IH. rewrite app_length in IH. cbn [length] in IH. rewrite Nat.add_1_r in IH.
+        specialize (IH Hok). destruct IH as (IH1 & IH2 & IH3).
+        destruct (c15_run g (C15Client p' (cl_live st ++ [b])) ops) as [os st2] eqn:Er.
+        cbn [fst snd] in *. cbn [c15_spec_trace c15_spec_nchunks]. rewrite En.
+        unfold c15_nch in *. cbn [cl_pool] in *.
+        split; [|split].
+        -- apply andb_true_iff. split.
+           ++ destruct b as [c off]. cbn [fst snd] in *.
+              eapply c15_valid_blk_ok; try eassumption.
+              intros x Hx. destruct Hinv as (_ & _ & Hin). apply Hin. apply in_or_app. right; exact Hx.
+           ++ rewrite <- Hlen. destruct b; exact IH1.
+        -- exact IH2.
+        -- rewrite IH3, Hlen. lia.
+      * specialize (IH st Hinv Hok). destruct IH as (IH1 & IH2 & IH3).
+        destruct (c15_run g st ops) as [os st2] eqn:Er.
+        cbn [fst snd] in *. cbn [c15_spec_trace c15_spec_nchunks]. rewrite En. split; [exact IH1|split; [exact IH2|exact IH3]].
+    + (* free i *)
+      apply andb_true_iff in Hok. destruct Hok as [Hi Hok]. apply Nat.ltb_lt in Hi.
+      cbn [c15_run c15_step].
+      destruct (nth_error (cl_live st) i) as [b|] eqn:Enth; [|apply nth_error_None in Enth; lia].
+      destruct (c15_free_step g sT aT st i b GG Hinv Enth) as (p' & Ef & Hinv' & Hlen).
+      rewrite Ef.
+      specialize (IH (C15Client p' (c15_remove_nth i (cl_live st))) Hinv').
+      cbn [cl_live] in IH.
+      assert (Hl : length (c15_remove_nth i (cl_live st)) = pred (length (cl_live st))).
+      { destruct (c15_remove_nth_split _ _ _ Enth) as (l1 & l2 & E1 & E2 & _). rewrite E2, E1, !app_length. cbn. lia. }
+      rewrite Hl in IH. specialize (IH Hok). destruct IH as (IH1 & IH2 & IH3).
+      destruct (c15_run g (C15Client p' (c15_remove_nth i (cl_live st))) ops) as [os st2] eqn:Er.
+      cbn [fst snd] in *. cbn [c15_spec_trace c15_spec_nchunks]. rewrite Enth.
+      unfold c15_nch in *. cbn [cl_pool] in *. rewrite Hlen in *. split; [exact IH1|split; [exact IH2|exact IH3]].
+Qed.
+
+(* destroy releases each chunk obtained exactly once *)
+Lemma c15_destroy_ok g st : c15_pool_inv g st -> c15_spec_destroy (c15_nch st) (c15_pool_destroy (cl_pool st)) = true.
+Proof.
+  intros (Hch & _). unfold c15_spec_destroy, c15_pool_destroy, c15_nch.
+  apply andb_true_iff. split; [apply Nat.eqb_refl|].
+  apply forallb_forall. intros c Hc. apply in_seq in Hc.
+  apply existsb_exists. exists c. split; [|apply Nat.eqb_refl].
+  rewrite Hch. apply c15_rev_seq_in. lia.
+Qed.
+
+(* ---- the history theorem, from the empty pool *)
+Theorem c15_pool_history sT aT g ops : c15_geom_good sT aT g -> c15_ops_ok 0 ops = true ->
+  let r := c15_run g c15_client_empty ops in
+  c15_spec_trace sT aT (g_chunkSize g) 0 [] ops (fst r) = true /\
+  c15_spec_destroy (c15_spec_nchunks (fst r)) (c15_pool_destroy (cl_pool (snd r))) = true /\
+  c15_pool_inv g (snd r).
+Proof.
+  intros GG Hok r.
+  destruct (c15_run_ok g sT aT GG ops c15_client_empty (c15_inv_empty g) Hok) as (H1 & H2 & H3).
+  fold r in H1, H2, H3. split; [exact H1|]. split; [|exact H2].
+  pose proof (c15_destroy_ok g (snd r) H2) as Hd. rewrite H3 in Hd. exact Hd.
+Qed.
+
+(* the conjunction form used by Properties_C15.v *)
+Lemma c15_geometry_asserts sT aT s g : 1 <= sT -> 1 <= aT -> c15_geometry sT aT s = Some g ->
+  0 < g_alignment g /\ (aT | g_alignment g) /\ (c15_alignofRef | g_alignment g) /\
+  sT <= g_unionSize g /\ c15_sizeofRef <= g_unionSize g /\ g_unionSize g <= g_alignedSize g /\
+  sT <= g_chunkSize g /\ c15_sizeofRef <= g_chunkSize g /\ (g_alignment g | g_chunkSize g) /\
+  1 <= g_elements g /\ g_elements g * g_alignedSize g <= g_chunkSize g /\ (g_alignment g | g_alignedSize g).
+Proof.
+  intros H1 H2 H. destruct (c15_geometry_good sT aT s g H1 H2 H). repeat split; assumption.
+Qed.
+
+Lemma c15_geometry_defined sT aT s : 1 <= sT -> 1 <= aT -> sT + 8 * aT + 8 <= c15_int_max -> s + 8 * aT <= c15_int_max ->
+  exists g, c15_geometry sT aT s = Some g.
+Proof.
+  intros H1 H2 H3 H4. unfold c15_geometry. rewrite (c15_geom_in_range_sufficient sT aT s H1 H2 H3 H4).
+  eexists; reflexivity.
 Qed.
